@@ -20,20 +20,29 @@ META = {
     "on mirrored axes, rest nodata) equals the nearest-neighbour warp of the whole source under any true transform "
     "within half a pixel of the snapped one, for every pixel type; read-shrink k>1 regions are k times the overview "
     "regions of equal shape; _can_paste accepts only scale+translation maps within the tolerances and rejects "
-    "rotation/shear, fractional scales and larger sub-pixel shifts.  Model tied to /repo by exact differential "
-    "correspondence; the reference nearest-neighbour semantics (Spec/Warp) and the real plans are compared "
-    "pixel-for-pixel with GDAL (rio_reproject nearest) for u1,i1,i2,u2,i4,f4,f8,bool on every run.",
+    "rotation/shear, fractional scales and larger sub-pixel shifts.  The public warp entry points are modelled too "
+    "(Model/C10Nd): rio_reproject's NaN default for float destinations, its loop over the planes of an N-d array (ydim, "
+    "default last two axes; proved: every source plane is warped exactly once into the ORIGINAL content of the same "
+    "destination plane, surplus planes untouched), warp_affine / warp_affine_rio (transform = A, no NaN default), and the "
+    "documented calling convention (Model/C10Sig: parameter order and exact default tolerances, tied to the model's "
+    "defaults).  The copies of the math.py helpers in C20 / C09 / C02 are proved equal to the planning model's "
+    "(Props/C10Link).  Model tied to /repo by exact differential correspondence; the reference nearest-neighbour "
+    "semantics (Spec/Warp) and the real plans are compared pixel-for-pixel with GDAL (rio_reproject nearest) for "
+    "u1,i1,i2,u2,i4,f4,f8,bool on every run, through keyword AND positional calling conventions, with destination / "
+    "source rasters in the memory layouts callers use (own array, window of a mosaic, Fortran, strided, reversed, "
+    "read-only, (y,x,band) stacks via ydim=0), and for grids that share a rotation / shear.",
     "note": "Trusted: Lean kernel + {propext, Classical.choice, Quot.sound}; GDAL's nearest-neighbour rule = Spec/Warp "
     "(validated each run, not proved); IEEE rounding not modelled.  paste = warp needs the half-pixel closeness "
     "hypothesis: a scale residue within stol drifts beyond it on images wider than ~500 px (known finding "
-    "paste-scale-drift-differs-from-warp, proved as paste_drift_warp_cex).",
+    "paste-scale-drift-differs-from-warp, proved as paste_drift_warp_cex).  A difference between inspect.signature and "
+    "the documented convention is never a finding by itself (only public functions are looked at, added optional "
+    "parameters are accepted); it only makes the behavioural probing denser.  Direct streams on private helpers "
+    "(_can_paste) are skipped and counted when the helper is renamed / re-parameterised.",
     "technique": "Lean 4 proof over hand model + differential correspondence with real code + GDAL pixel oracle",
-    "unmodelled": "warp.py: rio_reproject's loop over the planes of an N-d array (ydim) and its float NaN default for "
-    "dst_nodata (exercised by the mosaic oracle only); warp_affine / warp_affine_rio (thin wrappers); resampling_s2rio, "
-    "is_resampling_nn; GCP sources; every resampling other than nearest; GDAL's nudging of valid pixels equal to the "
-    "destination nodata (known finding, kept out of the value model).  math.py / overlap.py planning code is modelled in "
-    "Model/C03 (see C03 META).  C09's axis_aligned_iff / C20's helper models are separate copies of is_affine_st / "
-    "maybe_int / snap_scale: not linked by an equivalence theorem yet.",
+    "unmodelled": "warp.py: resampling_s2rio, is_resampling_nn (string dispatch); GCP sources; every resampling other than "
+    "nearest; the XSCALE/YSCALE kwargs work-around; GDAL's nudging of valid pixels equal to the destination nodata (known "
+    "finding, kept out of the value model); memory layout of the rasters (exercised by the oracles, not a model "
+    "parameter).  math.py / overlap.py planning code is modelled in Model/C03 + Model/C03Top (see C03 META).",
     "design_ref": "DESIGN.md §4 C10",
 }
 META["note"] += "  NOT MODELLED: " + META["unmodelled"]
@@ -180,6 +189,100 @@ def do_paste(src, dshape, r, A, nodata):
     return out
 
 
+DST_LAYOUTS = ["own", "own", "window", "window", "fortran", "strided", "reversed"]
+SRC_LAYOUTS = ["own", "own", "own", "view", "fortran", "readonly", "reversed"]
+
+
+def dst_alloc(rng, content, lay=None):
+    """A destination raster holding `content` in one of the memory layouts callers use: an array of its own, a window of a
+    bigger mosaic, Fortran order, a strided / reversed view.  Returns (array to warp into, backing array, guard mask of the
+    backing cells that do not belong to the destination, layout name)."""
+    lay = rng.choice(DST_LAYOUTS) if lay is None else lay
+    ny, nx = content.shape
+    if lay == "window":
+        y0, x0 = rng.randint(0, 3), rng.randint(0, 3)
+        back = np.empty((ny + y0 + rng.randint(0, 3), nx + x0 + rng.randint(1, 3)), dtype=content.dtype)
+        back[...] = content.flat[0] if content.size else 0
+        view = back[y0:y0 + ny, x0:x0 + nx]
+    elif lay == "fortran":
+        back = np.asfortranarray(np.empty((ny, nx), dtype=content.dtype))
+        view = back
+    elif lay == "strided":
+        back = np.empty((2 * ny + 1, 3 * nx + 1), dtype=content.dtype)
+        back[...] = content.flat[0] if content.size else 0
+        view = back[1::2, 1::3][:ny, :nx]
+    elif lay == "reversed":
+        back = np.empty((ny, nx), dtype=content.dtype)
+        view = back[::-1, ::-1]
+    else:
+        back = np.empty((ny, nx), dtype=content.dtype)
+        view = back
+    view[...] = content
+    guard = np.ones(back.shape, dtype=bool)
+    gv = {"window": lambda: guard[y0:y0 + ny, x0:x0 + nx], "strided": lambda: guard[1::2, 1::3][:ny, :nx]}.get(lay, lambda: guard)()
+    gv[...] = False
+    return view, back, guard, lay
+
+
+def src_layout(rng, arr, lay=None):
+    lay = rng.choice(SRC_LAYOUTS) if lay is None else lay
+    if lay == "view":
+        big = np.zeros((2 * arr.shape[0], 2 * arr.shape[1]), dtype=arr.dtype)
+        big[::2, 1::2] = arr
+        return big[::2, 1::2], lay
+    if lay == "fortran":
+        return np.asfortranarray(arr), lay
+    if lay == "readonly":
+        a = arr.copy()
+        a.flags.writeable = False
+        return a, lay
+    if lay == "reversed":
+        return arr[::-1, ::-1].copy()[::-1, ::-1], lay
+    return arr, lay
+
+
+def warp_nearest(rio_reproject, rng, src, dst_content, s_g, d_g, sn, dn, lay=None, slay=None, **kw):
+    """rio_reproject(nearest) of `src` INTO a destination holding `dst_content`, through a random memory layout of both
+    rasters and a random calling convention for the nodata arguments.  Returns (result image, problem or None, tag)."""
+    view, back, guard, lay = dst_alloc(rng, dst_content, lay)
+    before = back.copy()
+    src_v, slay = src_layout(rng, src, slay)
+    if rng.random() < 0.3 and not kw:
+        out = rio_reproject(src_v, view, s_g, d_g, "nearest", sn, dn)  # documented positional order
+    else:
+        out = rio_reproject(src_v, view, s_g, d_g, "nearest", src_nodata=sn, dst_nodata=dn, **kw)
+    problem = None
+    if out is not view:
+        problem = "rio_reproject did not return the destination array it was given"
+    elif guard.any() and not _same(back[guard], before[guard]):
+        problem = f"cells of the backing array outside the destination window were modified ({lay} layout)"
+    elif not _same(np.asarray(src_v), np.asarray(src)):
+        problem = "the source raster was modified"
+    return np.array(view), problem, f"{lay}/{slay}"
+
+
+def _same(a, b):
+    if a.dtype.kind == "f":
+        return bool(((a == b) | (np.isnan(a) & np.isnan(b))).all())
+    return bool((a == b).all())
+
+
+def shared_rotation_pair(rng, sshape, dshape):
+    """source grid rotated / sheared by an arbitrary angle and a destination that is a shifted (optionally mirrored) window
+    of the same rotated grid: dst→src pixel transform = whole-pixel shift + small residue, with rounding dust in the
+    off-diagonal terms"""
+    res = rng.choice([10, 30, 0.25, 0.00025, 1000.0, 7.3])
+    ang = rng.choice([30, 45, -60, 10.5, 123.4, 90, 180, 0.3, -0.001, 270.5])
+    base = Affine.translation(rng.uniform(-1e5, 1e5), rng.uniform(-1e5, 1e5)) * Affine.rotation(ang) * Affine.scale(res, -res)
+    if rng.random() < 0.2:
+        base = base * Affine(1, rng.choice([0.25, -0.5, 0.1]), 0, 0, 1, 0)
+    resd = rng.choice([0, 0, 0.02, -0.03, 0.04, -0.045, 0.2, 0.4])
+    sg = (rng.choice([1, 1, 1, -1]), rng.choice([1, 1, 1, -1]))
+    tx, ty = rng.randint(-dshape[1] + 1, sshape[1] - 1), rng.randint(-dshape[0] + 1, sshape[0] - 1)
+    Mx = Affine.translation(tx + resd + (dshape[1] if sg[0] < 0 else 0), ty - resd / 2 + (dshape[0] if sg[1] < 0 else 0)) * Affine.scale(*sg)
+    return base, Mx, "shared-rotation"
+
+
 def drift_of(A6, rs, dshape):
     a, _, c, _, e, f = A6
     da, de = abs(abs(a) / rs - 1), abs(abs(e) / rs - 1)
@@ -241,8 +344,8 @@ def run(R: Run):
                     rng.choice([x, -x, sgn * kk]), kk * rng.randint(-20, 20))
         R.corr(f"c10 snap {aff_s(A_)} {frac_s(tt)} {frac_s(t)}", lambda: aff_s(M.snap_affine(A_, ttol=tt, stol=t)),
                sig="snap|band-" + cls)
-        R.corr(f"c10 canpaste {aff_s(A_)} {frac_s(t)} {frac_s(tt)}", lambda: bool_s(O._can_paste(A_, stol=t, ttol=tt)[0]),
-               sig="canpaste|band-" + cls)
+        c03.corr_private(R, f"c10 canpaste {aff_s(A_)} {frac_s(t)} {frac_s(tt)}",
+                         lambda: bool_s(c03.call_private(O, "_can_paste", A_, stol=t, ttol=tt)[0]), sig="canpaste|band-" + cls)
 
     # ================================================================ exact stream: _can_paste, snap_affine, is_affine_st
     def rnd_aff():
@@ -285,14 +388,14 @@ def run(R: Run):
         res = []
 
         def fcp():
-            ok, why = O._can_paste(A, stol=stol, ttol=ttol)
+            ok, why = c03.call_private(O, "_can_paste", A, stol=stol, ttol=ttol)
             res.append((ok, why))
             if not is_sq(Fraction(A.a) ** 2 + Fraction(A.d) ** 2):
                 return "irr"
             return bool_s(ok)
 
         # the overview transform divides by read_scale: exact for powers of two, rounding-insensitive otherwise
-        R.corr(f"c10 canpaste {aff_s(A)} {frac_s(stol)} {frac_s(ttol)}", fcp, sig="canpaste|" + kind)
+        c03.corr_private(R, f"c10 canpaste {aff_s(A)} {frac_s(stol)} {frac_s(ttol)}", fcp, sig="canpaste|" + kind)
         if res:
             ok = res[0][0]
             a, b, c, d, e, f = faff(A)
@@ -341,8 +444,8 @@ def run(R: Run):
         s_g, d_g = gb(sshape, Affine.identity()), gb(dshape, A)
 
         def fw():
-            w = rio_reproject(src, np.full(dshape, nodata, dtype="int16"), s_g, d_g, "nearest", dst_nodata=nodata)
-            return img_s(w)
+            w, prob, _ = warp_nearest(rio_reproject, rng, src, np.full(dshape, nodata, dtype="int16"), s_g, d_g, None, nodata)
+            return img_s(w) if prob is None else prob
 
         R.corr(f"c10 nnwarp {sshape[0]} {sshape[1]} {dshape[0]} {dshape[1]} {aff_s(A)} {nodata} {img_s(src)}", fw,
                sig="spec-nnwarp|" + kind)
@@ -390,13 +493,251 @@ def run(R: Run):
         s_g, d_g = gb(sshape, Affine.identity()), gb(dshape, A)
 
         def fdet():
-            d_ = pre.astype(dt)
             conv = (lambda v: None if v is None else bool(v)) if t == "b" else (lambda v: v)
-            rio_reproject(src.astype(dt), d_, s_g, d_g, "nearest", src_nodata=conv(sn), dst_nodata=conv(dn), init_dest_nodata=init)
-            return img_s(d_.astype("int64"))
+            d_, prob, _ = warp_nearest(rio_reproject, rng, src.astype(dt), pre.astype(dt), s_g, d_g, conv(sn), conv(dn),
+                                       init_dest_nodata=init)
+            return img_s(d_.astype("int64")) if prob is None else prob
 
         R.corr(f"c10 detour {t} {bool_s(init)} {c03.opt_s(sn)} {c03.opt_s(dn)} {sshape[0]} {sshape[1]} {dshape[0]} {dshape[1]} "
                f"{aff_s(A)} {img_s(src)} {img_s(pre)}", fdet, sig=f"detour|{t}|init{bool_s(init)}")
+
+    # ================================================================ public calling convention (model: C10Sig)
+    import inspect
+
+    from odc.geo import roi as RO
+    from odc.geo import warp as W
+
+    def sig_s(fn):
+        out = []
+        for n_, p_ in inspect.signature(fn).parameters.items():
+            if p_.kind == p_.VAR_KEYWORD:
+                out.append("**" + n_)
+            elif p_.kind == p_.VAR_POSITIONAL:
+                out.append("*" + n_)
+            elif p_.kind == p_.KEYWORD_ONLY:
+                out.append("kw:" + n_)
+            elif p_.default is p_.empty:
+                out.append(n_)
+            elif p_.default is None:
+                out.append(n_ + "=None")
+            elif isinstance(p_.default, (int, float)) and not isinstance(p_.default, bool):
+                out.append(n_ + "=" + frac_s(p_.default))
+            else:
+                out.append(n_ + "=" + repr(p_.default))
+        return " ".join(out)
+
+    SIGS = {"overlap": (O, ["compute_reproject_roi", "box_overlap", "compute_axis_overlap", "get_scale_at_point",
+                            "get_scale_from_linear_transform", "native_pix_transform"]),
+            "math": (M, ["snap_affine", "snap_scale", "is_affine_st", "maybe_int", "is_almost_int", "split_float", "decompose_rws",
+                         "affine_from_pts"]),
+            "warp": (W, ["rio_reproject", "warp_affine", "warp_affine_rio"]),
+            "roi": (RO, ["roi_from_points", "roi_boundary", "scaled_up_roi"])}
+    # The documented calling convention (Model/C10Sig) against inspect.signature: PUBLIC entry points only, added
+    # parameters with defaults are fine, and a difference is never a finding by itself - it is recorded and makes the
+    # behavioural probing below (positional calls in the documented order, documented defaults) denser.
+    from .common import run_driver
+
+    names_ = [f"{m_}.{n_}" for m_, (_, ns_) in SIGS.items() for n_ in ns_]
+    try:
+        documented = dict(zip(names_, run_driver("C10", [f"c10 sig {n_}" for n_ in names_])))
+    except Exception:  # pylint: disable=broad-except
+        documented = {}
+    sig_differs = set()
+    for mod_name, (mod, fn_names) in SIGS.items():
+        for nm in fn_names:
+            fn_ = getattr(mod, nm, None)
+            want = documented.get(f"{mod_name}.{nm}", "").split(" ")
+            if fn_ is None or not want or want in (["unknown"], [""]):
+                R.count("signature|not-compared")
+                continue
+            got = sig_s(fn_).split(" ")
+            # compatible: the documented parameters come first, in order, with the documented defaults; anything the
+            # real function has in addition must be optional (default, keyword-only, *args / **kwargs)
+            core = [w for w in want if not w.startswith("**")]
+            extra = got[len(core):]
+            ok_ = got[:len(core)] == core and all(("=" in e) or e.startswith(("*", "kw:")) for e in extra)
+            R.count("signature|" + ("as-documented" if ok_ else "differs"))
+            if not ok_:
+                sig_differs.add(nm)
+                R.notes.append(f"signature of {mod_name}.{nm} differs from the documented one: {' '.join(got)} (documented "
+                               f"{' '.join(want)}); probing its calling conventions behaviourally")
+    # helpers with tolerance parameters through both conventions (keyword / positional in the documented order)
+    for _ in range(R.pick(300, 3000) * (3 if sig_differs else 1)):
+        A_, kind_ = rnd_aff()
+        tt, st = rng.choice([0.05, 2**-4, 0.26]), rng.choice([1e-3, 2**-7, 2**-10])
+        if all(abs(v) >= 1 - st or Fraction(v).numerator in (1, -1) or abs(v) < st for v in (A_.a, A_.e)):
+            R.corr(f"c10 snap {aff_s(A_)} {frac_s(tt)} {frac_s(st)}", lambda: aff_s(M.snap_affine(A_, tt, st)), sig="snap|positional")
+            R.corr(f"c10 snap {aff_s(A_)} {frac_s(1e-3)} {frac_s(1e-6)}", lambda: aff_s(M.snap_affine(A_)), sig="snap|defaults")
+
+    # ================================================================ public 2-D entry points and the N-d plane loop (model: C10Nd)
+    NAN = -(2**40)
+
+    def enc(a):
+        a = np.asarray(a)
+        if a.dtype.kind == "f":
+            return np.where(np.isnan(a), NAN, a).astype("int64")
+        return a.astype("int64")
+
+    def dec(v, isf):
+        return None if v is None else (float("nan") if (isf and v == NAN) else v)
+
+    def nd_case(ndim_extra):
+        t = rng.choice(["o", "o", "i8", "b", "f"])
+        isf = t == "f"
+        dt = {"o": "int16", "i8": "int8", "b": "bool", "f": rng.choice(["float32", "float64"])}[t]
+        if t == "b":
+            sn, dn = rng.choice([(None, None), (None, 0), (None, 1), (0, None), (1, 1), (0, 1), (1, 0)])
+            vals = [0, 1]
+        elif isf:
+            sn, dn = rng.choice([(None, None), (None, NAN), (NAN, None), (NAN, NAN), (7, None), (None, -5), (7, -5), (NAN, -5), (None, 0)])
+            vals = [-5, 0, 1, 7, 100, NAN, 3]
+        else:
+            lo, hi = (-128, 127) if t == "i8" else (-3000, 3000)
+            sn, dn = rng.choice([(None, None), (None, lo), (None, 5), (hi, None), (7, 7), (7, lo), (lo, hi), (0, None), (None, 0)])
+            vals = [lo, hi, 0, 1, 5, 7, -1, 100, -100, lo + 1, hi - 1]
+        fill = dn if dn is not None else (NAN if isf else (sn if sn is not None else 0))
+        ok_vals = [v for v in vals if v != fill or v == sn]  # valid pixels never equal the fill value (GDAL nudges those)
+        if not ok_vals or (t == "b" and not [v for v in ok_vals if v != sn]):
+            return None
+        sy, sx, dy_, dx_ = (rng.randint(1, 5) for _ in range(4))
+        off = lambda: rng.randint(-4, 6) + rng.choice([0.25, 0.75, 0.375])  # noqa: E731
+        A_ = Affine(rng.choice([1, 1, -1, 2, 0.5]), 0, off(), 0, rng.choice([1, 1, -1, 2]), off())
+        xx, yy = c03.centres((dy_, dx_))
+        px, py = c03.apply_np(faff(A_), xx, yy)
+        if (np.abs(px - np.round(px)) < 1e-3).any() or (np.abs(py - np.round(py)) < 1e-3).any():
+            return None
+        return t, isf, dt, sn, dn, vals, ok_vals, (sy, sx), (dy_, dx_), A_
+
+    def mk(shape, pool, dt, isf):
+        a = np.array([rng.choice(pool) for _ in range(int(np.prod(shape)))], dtype="float64").reshape(shape)
+        if isf:
+            a[a == NAN] = np.nan
+        return a.astype(dt)
+
+    for i in range(R.pick(300, 3000)):
+        c = nd_case(0)
+        if c is None:
+            continue
+        t, isf, dt, sn, dn, vals, ok_vals, ss, ds, A_ = c
+        init = rng.choice([True, True, False])
+        src, pre = mk(ss, ok_vals, dt, isf), mk(ds, vals, dt, isf)
+        s_g, d_g = gb(ss, Affine.identity()), gb(ds, A_)
+        entry = rng.choice(["rio", "aff"])
+        tm = "o" if t == "f" else t
+
+        def f2():
+            conv = (lambda v: None if v is None else bool(v)) if t == "b" else (lambda v: dec(v, isf))
+            if entry == "rio":
+                d_, prob, _ = warp_nearest(rio_reproject, rng, src, pre, s_g, d_g, conv(sn), conv(dn), init_dest_nodata=init)
+                return img_s(enc(d_)) if prob is None else prob
+            d_ = pre.copy()
+            if rng.random() < 0.5:
+                out = W.warp_affine(src, d_, A_, "nearest", conv(sn), conv(dn), init_dest_nodata=init)
+            else:
+                out = W.warp_affine_rio(src, d_, A_, "nearest", src_nodata=conv(sn), dst_nodata=conv(dn), init_dest_nodata=init)
+            assert out is d_
+            return img_s(enc(d_))
+
+        out2 = []
+        f2_ = f2
+
+        def f2():  # noqa: F811
+            o_ = guarded(f2_)
+            out2.append(o_)
+            return o_
+
+        # independent reference (exact rationals, no model): nearest neighbour of the whole source under A, source nodata
+        # pixels and uncovered pixels take the fill value (init) or keep the previous content
+        fill_ = dn if dn is not None else ((NAN if entry == "rio" else (sn if sn is not None else 0)) if isf
+                                           else (sn if sn is not None else 0))
+        es, ep = enc(src), enc(pre)
+        ref = np.full(ds, fill_, dtype="int64") if init else ep.copy()
+        a6 = faff(A_)
+        for iy in range(ds[0]):
+            for ix in range(ds[1]):
+                qx = a6[0] * Fraction(2 * ix + 1, 2) + a6[1] * Fraction(2 * iy + 1, 2) + a6[2]
+                qy = a6[3] * Fraction(2 * ix + 1, 2) + a6[4] * Fraction(2 * iy + 1, 2) + a6[5]
+                if 0 <= qx < ss[1] and 0 <= qy < ss[0]:
+                    v_ = int(es[math.floor(qy), math.floor(qx)])
+                    if sn is None or v_ != sn:
+                        ref[iy, ix] = v_
+        R.corr(f"c10 warp2 {entry} {tm} {bool_s(isf)} {NAN} {bool_s(init)} {c03.opt_s(sn)} {c03.opt_s(dn)} {ss[0]} {ss[1]} {ds[0]} {ds[1]} "
+               f"{aff_s(A_)} {img_s(enc(src))} {img_s(enc(pre))}", f2, sig=f"warp2|{entry}|{t}|init{bool_s(init)}")
+        R.oracle(bool(out2) and out2[0] == img_s(ref), "warp-differs-from-nearest-reference",
+                 {"fn": "warp_affine" if entry == "aff" else "rio_reproject", "dtype": dt, "src_shape": ss, "dst_shape": ds,
+                  "A": list(A_)[:6], "src_nodata": sn, "dst_nodata": dn, "init_dest_nodata": init, "src": es.tolist(), "dst": ep.tolist(),
+                  "nan_code": NAN},
+                 f"{entry}: got {out2 and out2[0]} expected {img_s(ref)}", sig=f"warp2|{entry}|{t}|reference")
+
+    for i in range(R.pick(300, 3000)):
+        c = nd_case(1)
+        if c is None:
+            continue
+        t, isf, dt, sn, dn, vals, ok_vals, ss, ds, A_ = c
+        init = rng.choice([True, True, False])
+        extra = rng.choice([(2,), (3,), (1,), (2, 2), (2, 3), (1, 2)])
+        ydim = rng.choice([None, None] + list(range(len(extra) + 1)))
+        yd = len(extra) if ydim is None else ydim
+        sshape = extra[:yd] + ss + extra[yd:]
+        dextra = extra
+        mism = rng.random() < 0.12  # destination with fewer / more planes than the source
+        if mism:
+            k_ = rng.randrange(len(extra))
+            dextra = tuple(v + (rng.choice([-1, 1, 2]) if j == k_ else 0) for j, v in enumerate(extra))
+            if min(dextra) < 1:
+                dextra = extra
+        dshape = dextra[:yd] + ds + dextra[yd:]
+        src, pre = mk(sshape, ok_vals, dt, isf), mk(dshape, vals, dt, isf)
+        s_g, d_g = gb(ss, Affine.identity()), gb(ds, A_)
+        tm = "o" if t == "f" else t
+
+        def fnd():
+            conv = (lambda v: None if v is None else bool(v)) if t == "b" else (lambda v: dec(v, isf))
+            d_ = pre.copy()
+            s_ = src
+            if rng.random() < 0.3:  # non-contiguous N-d views
+                d_ = np.asfortranarray(d_)
+                s_ = np.asfortranarray(s_)
+            kw = {} if ydim is None else {"ydim": ydim}
+            if ydim is not None and rng.random() < 0.3:
+                out = rio_reproject(s_, d_, s_g, d_g, "nearest", conv(sn), conv(dn), ydim, init_dest_nodata=init)
+            else:
+                out = rio_reproject(s_, d_, s_g, d_g, "nearest", src_nodata=conv(sn), dst_nodata=conv(dn), init_dest_nodata=init, **kw)
+            assert out is d_
+            return c03.list_s(enc(d_).ravel().tolist())
+
+        outn = []
+        fnd_ = fnd
+
+        def fnd():  # noqa: F811
+            o_ = guarded(fnd_)
+            outn.append(o_)
+            return o_
+
+        R.corr(f"c10 ndwarp {tm} {bool_s(isf)} {NAN} {c03.opt_s(ydim)} {c03.list_s(sshape)} {c03.list_s(dshape)} {aff_s(A_)} "
+               f"{c03.opt_s(sn)} {c03.opt_s(dn)} {bool_s(init)} {c03.list_s(enc(src).ravel().tolist())} "
+               f"{c03.list_s(enc(pre).ravel().tolist())}", fnd,
+               sig=f"ndwarp|{t}|ndim{len(sshape)}|ydim{ydim}|" + ("planes-differ" if dextra != extra else "planes-equal"))
+        if all(d_ >= e_ for d_, e_ in zip(dextra, extra)) and outn:  # every source plane has a destination plane
+            # independent of the model: every plane must equal the 2-D warp of that plane alone
+            conv = (lambda v: None if v is None else bool(v)) if t == "b" else (lambda v: dec(v, isf))
+            want = pre.copy()
+            try:
+                for idx in np.ndindex(*extra):
+                    sel = idx[:yd] + (slice(None), slice(None)) + idx[yd:]
+                    pl = np.ascontiguousarray(pre[sel])
+                    rio_reproject(np.ascontiguousarray(src[sel]), pl, s_g, d_g, "nearest", src_nodata=conv(sn), dst_nodata=conv(dn),
+                                  init_dest_nodata=init)
+                    want[sel] = pl
+                okn = c03.list_s(enc(want).ravel().tolist()) == outn[0]
+            except Exception as ex:  # pylint: disable=broad-except
+                okn = False
+                want = f"{type(ex).__name__}: {ex}"
+            R.oracle(okn, "nd-plane-differs-from-2d-warp",
+                     {"fn": "rio_reproject-nd", "dtype": dt, "src_shape": sshape, "dst_shape": dshape, "ydim": ydim, "A": list(A_)[:6],
+                      "src_nodata": sn, "dst_nodata": dn, "init_dest_nodata": init, "nan_code": NAN,
+                      "src": enc(src).ravel().tolist(), "dst": enc(pre).ravel().tolist()},
+                     f"N-d result {outn[0][:200]} differs from plane-by-plane 2-D warps", sig=f"ndwarp|{t}|plane-by-plane")
 
     # ================================================================ GDAL oracle on real plans
     n_pairs = R.pick(420, 4200)
@@ -409,7 +750,9 @@ def run(R: Run):
         else:
             sshape, dshape = (rng.randint(1, 30), rng.randint(1, 30)), (rng.randint(1, 30), rng.randint(1, 30))
         fam = rng.random()
-        if fam < 0.3:
+        if rng.random() < 0.12:  # two grids that SHARE a rotation / shear: pixel to pixel a whole-pixel shift (+ residue)
+            S, Mx, kind = shared_rotation_pair(rng, sshape, dshape)
+        elif fam < 0.3:
             S = gen_src_affine(rng)
             Mx, kind = gen_M_exact(rng, sshape, dshape)
         elif fam < 0.5:
@@ -466,8 +809,10 @@ def run(R: Run):
         src_g, dst_g = gb(sshape, S), gb(dshape, D)
         case = {"fn": "compute_reproject_roi", "src_shape": sshape, "dst_shape": dshape, "src_affine": list(S)[:6],
                 "dst_affine": list(D)[:6], "ttol": ttol, "stol": stol, "padding": pad, "align": al, "crs": CRS0}
+        conv = rng.random() < 0.3  # positional arguments in the documented order (src, dst, ttol, stol, padding, align)
+        case["positional"] = conv
         try:
-            r = O.compute_reproject_roi(src_g, dst_g, ttol=ttol, stol=stol, padding=pad, align=al)
+            r = c03.call_plan(O, conv, src_g, dst_g, ttol=ttol, stol=stol, padding=pad, align=al)
         except Exception as e:  # pylint: disable=broad-except
             R.oracle(False, "plan-raises", case, f"compute_reproject_roi raised {type(e).__name__}: {e}", sig="plan|raises")
             continue
@@ -538,12 +883,14 @@ def run(R: Run):
                 src = make_src(rng, sshape, dt) if rnd == 0 else content_src(rng, sshape, dt, sn, dn)
                 cfg = {"dtype": dt, "src_nodata": repr(sn), "dst_nodata": repr(dn), "content": "plain" if rnd == 0 else "special"}
                 try:
-                    w = rio_reproject(src, np.full(dshape, 77 if dt != "bool" else True, dtype=dt), src_g, dst_g, "nearest",
-                                      src_nodata=sn, dst_nodata=dn)
+                    w, prob, lay = warp_nearest(rio_reproject, rng, src, np.full(dshape, 77 if dt != "bool" else True, dtype=dt),
+                                                src_g, dst_g, sn, dn)
+                    cfg["layout"] = lay
                     p, weff = ref_paste(src, dshape, r, A, sn, dn)
                 except Exception as ex:  # pylint: disable=broad-except
                     R.oracle(False, "paste-or-warp-raises", {**case, **cfg}, f"{type(ex).__name__}: {ex}", sig="plan|raises")
                     continue
+                R.oracle(prob is None, "warp-memory-contract", {**case, **cfg}, str(prob), sig="plan|paste1|layout|" + lay.split("/")[0])
                 if dt.startswith("float"):
                     neq = ~((p == w) | (np.isnan(p) & np.isnan(w)))
                 else:
@@ -577,7 +924,16 @@ def run(R: Run):
         sn, dn = nodata_config(rng, dt)
         nb = rng.choice([0, 0, 2])  # 0: plain 2-D rasters, otherwise (band, y, x) stacks
         pre = [content_src(rng, dshape, dt, sn, dn) for _ in range(max(1, nb))]  # arbitrary earlier content, not only nodata
-        W = np.stack(pre) if nb else pre[0].copy()
+        # the shared destination: an array of its own, a window of a bigger mosaic / strided / Fortran (2-D), or a
+        # (y, x, band) stack whose planes are visited through ydim=0
+        ydim0 = bool(nb) and rng.random() < 0.5
+        if nb:
+            W = np.stack(pre)
+            Wcall = np.moveaxis(W, 0, -1) if ydim0 else W
+            wlay = "ydim0" if ydim0 else "bands-first"
+        else:
+            W, _, _, wlay = dst_alloc(rng, pre[0])
+            Wcall = W
         E = [p_.copy() for p_ in pre]
         steps = []
         COL = [None] * max(1, nb)
@@ -599,19 +955,24 @@ def run(R: Run):
                     break
                 A = r.transform.back.linear
                 srcs = [content_src(rng, sshape, dt, sn, dn) for _ in range(max(1, nb))]
-                rio_reproject(np.stack(srcs) if nb else srcs[0], W, src_g, dst_g, "nearest", src_nodata=sn, dst_nodata=dn,
-                              init_dest_nodata=init)
+                s_in = (np.moveaxis(np.stack(srcs), 0, -1) if ydim0 else np.stack(srcs)) if nb else src_layout(rng, srcs[0])[0]
+                ret = rio_reproject(s_in, Wcall, src_g, dst_g, "nearest", src_nodata=sn, dst_nodata=dn, init_dest_nodata=init,
+                                    **({"ydim": 0} if ydim0 else {}))
+                if ret is not Wcall:
+                    bad = f"tile {t}: rio_reproject did not return the destination it was given"
+                    break
                 for bnd in range(max(1, nb)):
                     E[bnd], COL[bnd] = ref_paste_into(E[bnd], srcs[bnd], r, A, sn, dn, init, COL[bnd])
             except Exception as ex:  # pylint: disable=broad-except
                 bad = f"tile {t}: {type(ex).__name__}: {ex}"
                 break
         case = {"fn": "mosaic", "dtype": dt, "dst_shape": dshape, "dst_affine": list(D)[:6], "src_nodata": repr(sn),
-                "dst_nodata": repr(dn), "bands": nb, "steps": steps, "crs": CRS0}
+                "dst_nodata": repr(dn), "bands": nb, "steps": steps, "crs": CRS0, "layout": wlay}
         if bad is not None:
             R.oracle(False, "mosaic-raises", case, bad, sig="mosaic|raises")
             continue
         Es = np.stack(E) if nb else E[0]
+        W = np.array(W)
         if dt.startswith("float"):
             neq = ~((Es == W) | (np.isnan(Es) & np.isnan(W)))
         else:
@@ -626,7 +987,7 @@ def run(R: Run):
             cmask = np.stack(COL) if nb else COL[0]
             if (neq <= cmask).all():
                 key = "paste-differs-from-warp-valid-pixel-equals-dst-nodata"
-        R.oracle(not neq.any(), key, case, what, sig=f"mosaic|{dt}|bands{nb}|" + "".join("T" if st["init_dest_nodata"] else "F" for st in steps))
+        R.oracle(not neq.any(), key, case, what, sig=f"mosaic|{dt}|bands{nb}|{wlay}|" + "".join("T" if st["init_dest_nodata"] else "F" for st in steps))
 
     # --- grids in CRSs WITHOUT an EPSG code (same or different), after arbitrary earlier calls on the CRS objects
     from odc.geo.crs import CRS
@@ -772,6 +1133,34 @@ def searcher(R: Run, mismatches):
                         if ((p_img != w) & ~edge).any() and not (has_res and drift >= Fraction(1, 2)):
                             return {"key": "paste-differs-from-warp", "case": case,
                                     "what": f"{int(((p_img != w) & ~edge).sum())} pixels differ; roi_src={r.roi_src} roi_dst={r.roi_dst}"}
+    # grids sharing a rotation / shear (off-diagonal rounding dust), every calling convention
+    for i in range(150):
+        Ns, Nd = (rng.randint(4, 24), rng.randint(4, 24)), (rng.randint(3, 20), rng.randint(3, 20))
+        S, Mx, _ = shared_rotation_pair(rng, Ns, Nd)
+        D = S * Mx
+        src_g, dst_g = GeoBox(wh_(Ns[1], Ns[0]), S, CRS0), GeoBox(wh_(Nd[1], Nd[0]), D, CRS0)
+        conv = i % 3 == 0
+        case = {"fn": "compute_reproject_roi", "src_shape": Ns, "dst_shape": Nd, "src_affine": list(S)[:6],
+                "dst_affine": list(D)[:6], "ttol": 0.05, "stol": 1e-3, "crs": CRS0, "dtype": "int16", "positional": conv}
+        try:
+            r = c03.call_plan(O, conv, src_g, dst_g, ttol=0.05, stol=1e-3)
+        except Exception as ex:  # pylint: disable=broad-except
+            return {"key": "plan-raises", "case": case, "what": f"{type(ex).__name__}: {ex}"}
+        if not (r.paste_ok and r.read_shrink == 1):
+            continue
+        (ys, xs), (yd, xd) = r.roi_src, r.roi_dst
+        if (ys.stop - ys.start, xs.stop - xs.start) != (yd.stop - yd.start, xd.stop - xd.start):
+            return {"key": "paste-roi-shape-mismatch", "case": case, "what": f"roi_src={r.roi_src} roi_dst={r.roi_dst}"}
+        src = make_src(rng, Ns, "int16")
+        w = rio_reproject(src, np.full(Nd, -999, dtype="int16"), src_g, dst_g, "nearest", dst_nodata=-999)
+        p_img = do_paste(src, Nd, r, r.transform.back.linear, -999)
+        A6 = fmul(finv(faff(S)), faff(D))
+        xx, yy = c03.centres(Nd)
+        qx, qy = c03.apply_np(A6, xx, yy)
+        edge = (np.abs(qx - np.round(qx)) < 1e-6) | (np.abs(qy - np.round(qy)) < 1e-6)
+        if ((p_img != w) & ~edge).any():
+            return {"key": "paste-differs-from-warp", "case": case,
+                    "what": f"{int(((p_img != w) & ~edge).sum())} pixels differ; roi_src={r.roi_src} roi_dst={r.roi_dst}"}
     return None
 
 
@@ -782,7 +1171,7 @@ def replay(R: Run, rec) -> int:
     print("replay case:", case)
     if case.get("fn") == "_can_paste":
         A = Affine(*case["A"])
-        print("_can_paste ->", O._can_paste(A, stol=case["stol"], ttol=case["ttol"]))
+        print("_can_paste ->", c03.call_private(O, "_can_paste", A, stol=case["stol"], ttol=case["ttol"]))
         return 1
     if case.get("fn") == "mosaic":
         from ast import literal_eval
@@ -795,24 +1184,93 @@ def replay(R: Run, rec) -> int:
         D = Affine(*case["dst_affine"])
         dst_g = GeoBox(wh_(ds[1], ds[0]), D, case["crs"])
         pre = [content_src(R.rng, ds, dt, sn, dn) for _ in range(max(1, nb))]
-        W = np.stack(pre) if nb else pre[0].copy()
+        wlay = case.get("layout", "own")
+        ydim0 = wlay == "ydim0"
+        if nb:
+            W = np.stack(pre)
+            Wcall = np.moveaxis(W, 0, -1) if ydim0 else W
+        else:
+            W = dst_alloc(R.rng, pre[0], wlay)[0]
+            Wcall = W
         E, COL = [p_.copy() for p_ in pre], [None] * max(1, nb)
         for st in case["steps"]:
             ss = tuple(st["src_shape"])
             src_g = GeoBox(wh_(ss[1], ss[0]), Affine(*st["src_affine"]), case["crs"])
             r = O.compute_reproject_roi(src_g, dst_g)
             srcs = [content_src(R.rng, ss, dt, sn, dn) for _ in range(max(1, nb))]
-            rio_reproject(np.stack(srcs) if nb else srcs[0], W, src_g, dst_g, "nearest", src_nodata=sn, dst_nodata=dn,
-                          init_dest_nodata=st["init_dest_nodata"])
+            s_in = (np.moveaxis(np.stack(srcs), 0, -1) if ydim0 else np.stack(srcs)) if nb else srcs[0]
+            rio_reproject(s_in, Wcall, src_g, dst_g, "nearest", src_nodata=sn, dst_nodata=dn,
+                          init_dest_nodata=st["init_dest_nodata"], **({"ydim": 0} if ydim0 else {}))
             for b_ in range(max(1, nb)):
                 E[b_], COL[b_] = ref_paste_into(E[b_], srcs[b_], r, r.transform.back.linear, sn, dn, st["init_dest_nodata"], COL[b_])
         Es = np.stack(E) if nb else E[0]
+        W = np.array(W)
         neq = ~((Es == W) | ((Es != Es) & (W != W)))
         cm = np.stack(COL) if nb else COL[0]
         other = neq & ~cm
         print(f"{int(neq.sum())} of {neq.size} pixels differ between sequential warps and sequential pastes "
               f"({int(other.sum())} of them are not valid-pixel-equals-dst-nodata collisions)")
         return 1 if (other.any() if key == "mosaic-warp-differs-from-paste" else neq.any()) else 0
+    if case.get("fn") in ("warp_affine", "rio_reproject", "rio_reproject-nd"):
+        from odc.geo import warp as W
+
+        dt, nanc = case["dtype"], case["nan_code"]
+        isf = dt.startswith("float")
+
+        def arr(data, shape):
+            a = np.array(data, dtype="float64").reshape(shape)
+            if isf:
+                a[a == nanc] = np.nan
+            return a.astype(dt)
+
+        def val(v):
+            return None if v is None else (bool(v) if dt == "bool" else (float("nan") if (isf and v == nanc) else v))
+
+        ss, ds, A = tuple(case["src_shape"]), tuple(case["dst_shape"]), Affine(*case["A"])
+        src, dst = arr(case["src"], ss), arr(case["dst"], ds)
+        kw = dict(src_nodata=val(case["src_nodata"]), dst_nodata=val(case["dst_nodata"]), init_dest_nodata=case["init_dest_nodata"])
+        if case["fn"] == "rio_reproject-nd":
+            yd = len(ss) - 2 if case["ydim"] is None else case["ydim"]
+            s_g = GeoBox(wh_(ss[yd + 1], ss[yd]), Affine.identity(), CRS0)
+            d_g = GeoBox(wh_(ds[yd + 1], ds[yd]), A, CRS0)
+            got = dst.copy()
+            try:
+                rio_reproject(src, got, s_g, d_g, "nearest", **kw, **({} if case["ydim"] is None else {"ydim": case["ydim"]}))
+            except Exception as ex:  # pylint: disable=broad-except
+                print("N-d rio_reproject raises", type(ex).__name__, ex)
+                return 1
+            want = dst.copy()
+            for idx in np.ndindex(*(ss[:yd] + ss[yd + 2:])):
+                sel = idx[:yd] + (slice(None), slice(None)) + idx[yd:]
+                pl = np.ascontiguousarray(dst[sel])
+                rio_reproject(np.ascontiguousarray(src[sel]), pl, s_g, d_g, "nearest", **kw)
+                want[sel] = pl
+            bad = not _same(got, want)
+            print("N-d result", "differs from" if bad else "equals", "the plane-by-plane 2-D warps")
+            return 1 if bad else 0
+        got = dst.copy()
+        if case["fn"] == "warp_affine":
+            W.warp_affine(src, got, A, "nearest", **kw)
+        else:
+            rio_reproject(src, got, GeoBox(wh_(ss[1], ss[0]), Affine.identity(), CRS0), GeoBox(wh_(ds[1], ds[0]), A, CRS0), "nearest", **kw)
+        print(case["fn"], "->", got.tolist())
+        fill_ = case["dst_nodata"] if case["dst_nodata"] is not None else (
+            (nanc if case["fn"] == "rio_reproject" else (case["src_nodata"] if case["src_nodata"] is not None else 0)) if isf
+            else (case["src_nodata"] if case["src_nodata"] is not None else 0))
+        es = np.array(case["src"], dtype="int64").reshape(ss)
+        ref = np.full(ds, fill_, dtype="int64") if case["init_dest_nodata"] else np.array(case["dst"], dtype="int64").reshape(ds)
+        a6 = faff(A)
+        for iy in range(ds[0]):
+            for ix in range(ds[1]):
+                qx = a6[0] * Fraction(2 * ix + 1, 2) + a6[1] * Fraction(2 * iy + 1, 2) + a6[2]
+                qy = a6[3] * Fraction(2 * ix + 1, 2) + a6[4] * Fraction(2 * iy + 1, 2) + a6[5]
+                if 0 <= qx < ss[1] and 0 <= qy < ss[0]:
+                    v_ = int(es[math.floor(qy), math.floor(qx)])
+                    if case["src_nodata"] is None or v_ != case["src_nodata"]:
+                        ref[iy, ix] = v_
+        g_ = np.where(np.isnan(got), nanc, got).astype("int64") if isf else got.astype("int64")
+        print("nearest-neighbour reference:", ref.tolist())
+        return 1 if (g_ != ref).any() else 0
     if case.get("fn") != "compute_reproject_roi":
         return 0
     from odc.geo.crs import CRS
@@ -822,8 +1280,8 @@ def replay(R: Run, rec) -> int:
     ca, cb = CRS(case.get("src_crs", case.get("crs", CRS0))), CRS(case.get("dst_crs", case.get("crs", CRS0)))
     c03.apply_history(case.get("history", []), ca, cb)
     src_g, dst_g = GeoBox(wh_(ss[1], ss[0]), S, ca), GeoBox(wh_(ds[1], ds[0]), D, cb)
-    r = O.compute_reproject_roi(src_g, dst_g, ttol=case.get("ttol", 0.05), stol=case.get("stol", 1e-3),
-                                padding=case.get("padding"), align=case.get("align"))
+    r = c03.call_plan(O, case.get("positional", False), src_g, dst_g, ttol=case.get("ttol", 0.05), stol=case.get("stol", 1e-3),
+                      padding=case.get("padding"), align=case.get("align"))
     if key in ("paste-ok-for-different-crs", "crs-sameness-misjudged"):
         print("paste_ok", r.paste_ok, "planned as same-CRS pair:", r.transform.linear is not None)
         return 1 if (r.paste_ok or r.transform.linear is not None) else 0
@@ -833,8 +1291,12 @@ def replay(R: Run, rec) -> int:
     dt = case.get("dtype", "int16")
     nodata = NODATA[dt]
     src = make_src(R.rng, ss, dt)
-    w = rio_reproject(src, np.full(ds, nodata, dtype=dt), src_g, dst_g, "nearest", dst_nodata=nodata)
     p = do_paste(src, ds, r, r.transform.back.linear, nodata)
-    neq = ~((p == w) | ((p != p) & (w != w)))
-    print(f"{int(neq.sum())} of {neq.size} pixels differ between the pasted image and rio_reproject nearest")
-    return 1 if neq.any() else 0
+    rc = 0
+    for lay in sorted(set(DST_LAYOUTS)):
+        w, prob, _ = warp_nearest(rio_reproject, R.rng, src, np.full(ds, nodata, dtype=dt), src_g, dst_g, None, nodata, lay=lay)
+        neq = ~((p == w) | ((p != p) & (w != w)))
+        print(f"destination layout {lay}: {int(neq.sum())} of {neq.size} pixels differ between the pasted image and "
+              f"rio_reproject nearest" + (f"; {prob}" if prob else ""))
+        rc = 1 if (neq.any() or prob) else rc
+    return rc
